@@ -5,6 +5,67 @@ package service
 func init() {
 	vrtHarnesses["VerifC05Reassembly"] = VerifC05Reassembly
 	vrtHarnesses["VerifC05BadNumber"] = VerifC05BadNumber
+	vrtHarnesses["VerifC05TwoTransfers"] = VerifC05TwoTransfers
+}
+
+// VerifC05TwoTransfers: two concurrent transfers with different message IDs, their packets
+// interleaved in every way that keeps each transfer's own order (packet 1 first); each is delivered
+// exactly once with its own body.
+func VerifC05TwoTransfers() {
+	vrt_ClockFrozen()
+	a := c05Transfer("a", 0x0801, 2+vrt_Choose("Na", 2), 0)
+	b := c05Transfer("b", 0x0704, 2, 0)
+	r := vNewReader()
+	ia, ib := 0, 0
+	doneA, doneB := 0, 0
+	var bodyA, bodyB []byte
+	coalesce := vrt_Choose("pairsCoalesced", 2) == 1
+	var pending []byte
+	flush := func() {
+		if len(pending) == 0 {
+			return
+		}
+		msgs, err := r.read(pending)
+		vrt_Assert(err == nil, "valid packets reported as an error")
+		pending = nil
+		for _, m := range msgs {
+			if m.ExtensionFields.SubcontractComplete {
+				if m.JTMessage.Header.ID == 0x0801 {
+					doneA++
+					bodyA = append([]byte{}, m.JTMessage.Body...)
+				} else {
+					doneB++
+					bodyB = append([]byte{}, m.JTMessage.Body...)
+				}
+			}
+		}
+	}
+	for k := 0; ia < len(a) || ib < len(b); k++ {
+		takeA := ib >= len(b) || (ia < len(a) && vrt_Choose("next", 2) == 0)
+		var f *vFrame
+		if takeA {
+			f = a[ia]
+			ia++
+		} else {
+			f = b[ib]
+			ib++
+		}
+		pending = append(pending, f.bytes()...)
+		if !coalesce || k%2 == 1 {
+			flush()
+		}
+	}
+	flush()
+	var wantA, wantB []byte
+	for _, f := range a {
+		wantA = append(wantA, f.body...)
+	}
+	for _, f := range b {
+		wantB = append(wantB, f.body...)
+	}
+	vrt_Assert(doneA == 1 && doneB == 1, "each of two interleaved transfers must be delivered exactly once")
+	vrt_Assert(vrt_BytesEq(bodyA, wantA) && vrt_BytesEq(bodyB, wantB), "interleaved transfers were mixed up or truncated")
+	vrt_Cover("interleaved", true)
 }
 
 // c05Transfer builds the N packets of one sub-packaged message (same ID and phone, non-empty bodies
